@@ -33,6 +33,7 @@ func (generator *chunkIDGenerator) Generate() string {
 	} else {
 		generator.sequence++
 	}
+	nextTimestamp = generator.epochNano // not the clock reading: IDs must keep growing if the wall clock steps back
 	nextSequence := generator.sequence
 	generator.Unlock()
 	return fmt.Sprintf("%019d-%08d"+generator.suffix, nextTimestamp, nextSequence)
